@@ -303,7 +303,7 @@ class RandGen:
 
 
 def random_test(uni, rng, idx, nops=40, nslots=8, p_reopen=0.06, p_batch=0.12, p_del=0.15, cfgs=None, pal=None, fields=None,
-                case_heavy=False, p_query=0.0, abandon=False):
+                case_heavy=False, p_query=0.0, abandon=False, p_bad=0.0):
     g = RandGen(uni, rng, pal=pal, fields=fields, case_heavy=case_heavy, nslots=nslots)
     c = rng.choice(cfgs) if cfgs else (rng.random() < 0.5, rng.random() < 0.35)
     ops = []
@@ -329,6 +329,10 @@ def random_test(uni, rng, idx, nops=40, nslots=8, p_reopen=0.06, p_batch=0.12, p
             ops.append({"op": "obs", "light": True, "qs": [g.chain() for _ in range(6)]})
         else:
             ops.append({"op": "put", "slot": g.slot(), "o": g.obj()})
+            if p_bad and rng.random() < p_bad:
+                ops[-1]["bad"] = rng.choice(["nan", "inf", "chan"])
+                ops[-1]["o"]["V"] = 2
+                ops[-1]["o"].pop("W", None)
     return {"id": "rnd%d" % idx, "cfg": make_cfg(c[0], c[1], rng.randrange(len(STORAGE))), "ops": ops, "fields": ["K", "S"] + g.flds}
 
 
@@ -431,3 +435,141 @@ def args_test(uni, rng, idx, cfgs=None):
     t = {"id": "arg%d" % idx, "cfg": make_cfg(c[0], c[1], idx), "ops": ops, "fields": ["K"]}
     t["cfg"]["plain"] = idx % 2 == 1
     return t
+
+
+# --------------------------------------------------------------------------- fault engines
+
+def sync_cfg(rng_or_idx, cache=None):
+    i = rng_or_idx if isinstance(rng_or_idx, int) else rng_or_idx.randrange(64)
+    c = make_cfg(bool(i % 2) if cache is None else cache, False, i // 2)
+    return c
+
+
+def small_history(uni, rng, nslots=3, nops=4, valid_only=False):
+    """A short history of writes over few slots and a narrow key window (K, A only)."""
+    ops = []
+    for _ in range(nops):
+        x = rng.random()
+        s = rng.randrange(1, nslots + 1)
+        o = {"K": 6 + rng.randrange(4), "A": 4 + rng.randrange(3), "V": 2 if (valid_only or rng.random() < 0.85) else uni["inv"]["V"], "pl": rng.randrange(uni["payloads"])}
+        if x < 0.55:
+            ops.append({"op": "put", "slot": s, "o": o})
+        elif x < 0.7:
+            o2 = dict(o, K=6 + rng.randrange(4))
+            ops.append({"op": "many", "batch": [{"slot": s, "o": o}, {"slot": rng.randrange(1, nslots + 1), "o": o2}], "csize": rng.choice([0, 0, 1])})
+            if ops[-1]["batch"][0]["slot"] == ops[-1]["batch"][1]["slot"]:
+                ops[-1]["batch"].pop()
+        elif x < 0.9:
+            ops.append({"op": "del", "slot": s})
+        elif x < 0.95:
+            ops.append({"op": "delall"})
+        else:
+            ops.append({"op": "delsearch", "q": [{"f": "A", "op": rng.choice(QOPS), "p": 4 + rng.randrange(3)}]})
+    return ops
+
+
+def crash_test(uni, rng, idx, nops=3):
+    return {"id": "cr%d" % idx, "cfg": sync_cfg(rng), "ops": small_history(uni, rng, nops=nops), "fields": ["K", "A"], "crash_all": True}
+
+
+def crashify(t):
+    """Turn a model-generated test into a crash test (sync only)."""
+    t = dict(t)
+    t["crash_all"] = True
+    t["fields"] = ["K", "A"]
+    t["ops"] = [o for o in t["ops"] if o["op"] in ("put", "many", "del", "delall", "delsearch", "reopen")]
+    return t
+
+
+def damage_tests(uni, rng, limit=None, nslots=3):
+    """Every subset of {remove file, add file, remove index entry, remove schema} on small databases."""
+    out = []
+    idx = 0
+    for nobj in range(0, nslots + 1):
+        slots = list(range(1, nobj + 1))
+        subsets = [[s for j, s in enumerate(slots) if m >> j & 1] for m in range(1 << nobj)]
+        for rm in subsets:
+            for un in subsets:
+                for add in (0, 1, 2):
+                    for rms in (False, True):
+                        if rms and un:
+                            continue   # the index goes with the schema
+                        ops = [{"op": "put", "slot": s, "o": {"K": 6 + s, "A": 4 + s % 2, "pl": s}} for s in slots]
+                        if nobj and (idx % 3 == 0):
+                            ops.append({"op": "put", "slot": 1, "o": {"K": 6 + 1, "A": 6, "pl": 2}})   # an update: index entry moved
+                        d = {"rm": rm, "unindex": un, "rmschema": rms, "add": [{"K": 12 + j, "A": 4 + j, "pl": 3 + j} for j in range(add)]}
+                        ops.append({"op": "damage", "damage": d})
+                        # life goes on after the repair
+                        ops.append({"op": "put", "slot": 9, "o": {"K": 16, "A": 5}})
+                        ops.append({"op": "obs"})
+                        ops.append({"op": "reopen", "close": True, "create": idx % 2 == 0})
+                        out.append({"id": "dm%d" % idx, "cfg": sync_cfg(idx), "ops": ops, "fields": ["K", "A"]})
+                        idx += 1
+    if limit and len(out) > limit:
+        rng.shuffle(out)
+        out = out[:limit]
+    return out
+
+
+def fault_tests(uni, rng, n, kmax=16):
+    """A short history, then one call with a single storage fault at its k-th file-system call."""
+    out = []
+    idx = 0
+    while len(out) < n:
+        pre = small_history(uni, rng, nops=rng.randrange(0, 4))
+        target = small_history(uni, rng, nops=1, valid_only=True)[0]
+        cfg = make_cfg(rng.random() < 0.5, rng.random() < 0.25, rng.randrange(8))
+        for k in range(1, kmax + 1):
+            for sub in ("", "write"):
+                t = dict(target)
+                t["fault"], t["fsub"] = k, sub
+                out.append({"id": "ft%d" % idx, "cfg": cfg, "ops": pre + [t], "fields": ["K", "A"], "noobs": False})
+                idx += 1
+    return out[:n]
+
+
+NODE_REPL = ["null", "0", "-1", "\"x\"", "[]", "{}", "true", "1e99", "[[]]", "{\"a\":1}", "1.5", "\"\""]
+STRAYS = [("file", "nodot"), ("file", "README"), ("file", ".hidden"), ("file", "x.json"), ("dir", "subdir"), ("dir", "sub.dir"),
+          ("dir", "00000000-0000-4000-8000-000000000000"), ("dir", "00000000-0000-4000-8000-000000000000.json"),
+          ("file", "00000000-0000-4000-8000-000000000000"), ("file", "00000000-0000-4000-8000-000000000000.json.bak"),
+          ("file", "00000000-0000-4000-8000-00000000000.json"), ("file", "schema.json.tmp"), ("file", "..json"), ("file", ".")]
+
+
+def corrupt_tests(uni, rng, n_schema, n_object, exhaustive=False):
+    """File-level mutations of a small valid database: truncation at every length, single-bit flips,
+    every JSON node replaced by each other kind, stray directory entries."""
+    out = []
+    base = [{"op": "put", "slot": 1, "o": {"K": 7, "A": 4, "pl": 3, "PX": 3, "PY": 8}}, {"op": "put", "slot": 2, "o": {"K": 8, "A": 5, "pl": 6}}]
+    idx = [0]
+
+    def add(c, gz=False, cache=False):
+        cfg = make_cfg(cache, False, 0)
+        cfg["gz"] = gz
+        out.append({"id": "co%d" % idx[0], "cfg": cfg, "ops": base + [{"op": "corrupt", "corrupt": c}], "fields": ["K"], "noobs": True})
+        idx[0] += 1
+    SCH, OBJ = 2600, 330      # upper bounds of the file sizes; positions beyond the end are harmless
+    lens_s = range(0, SCH) if exhaustive else sorted(rng.sample(range(0, SCH), n_schema))
+    for L in lens_s:
+        add({"target": "schema", "kind": "trunc", "at": L})
+    bits_s = range(0, SCH * 8) if exhaustive else sorted(rng.sample(range(0, SCH * 8), n_schema * 2))
+    for b in bits_s:
+        add({"target": "schema", "kind": "flip", "at": b})
+    nodes = range(0, 120) if exhaustive else sorted(rng.sample(range(0, 120), min(120, max(6, n_schema // 4))))
+    for nd in nodes:
+        for v in (NODE_REPL if exhaustive else rng.sample(NODE_REPL, 4)):
+            add({"target": "schema", "kind": "node", "at": nd, "val": v})
+    lens_o = range(0, OBJ) if exhaustive else sorted(rng.sample(range(0, OBJ), n_object))
+    for L in lens_o:
+        add({"target": "object", "slot": 1, "kind": "trunc", "at": L}, gz=L % 2 == 1, cache=L % 3 == 0)
+    bits_o = range(0, OBJ * 8) if exhaustive else sorted(rng.sample(range(0, OBJ * 8), n_object * 2))
+    for b in bits_o:
+        add({"target": "object", "slot": 1, "kind": "flip", "at": b}, gz=b % 2 == 1)
+    for nd in (range(0, 40) if exhaustive else sorted(rng.sample(range(0, 40), min(40, max(4, n_object // 4))))):
+        for v in (NODE_REPL if exhaustive else rng.sample(NODE_REPL, 3)):
+            add({"target": "object", "slot": 1, "kind": "node", "at": nd, "val": v}, gz=nd % 2 == 1)
+    for v in ["", "null", "[]", "0", "\"s\"", "{", "{}", "\x00\x00", "{\"fields\":null}", "{\"index\":null}", "{\"index\":{\"fields\":{\"K\":null}}}"]:
+        add({"target": "schema", "kind": "set", "val": v})
+        add({"target": "object", "slot": 1, "kind": "set", "val": v})
+    for kind, name in STRAYS:
+        add({"target": "stray", "kind": kind, "val": name})
+    return out
